@@ -1,7 +1,7 @@
 (* C13 — whitespace stripping acts as if the stripped text nodes were not in the source.
    Statements only; proofs are in StripModel.v (decision) and StripTreeModel.v (observations). *)
 From Coq Require Import String List NArith Bool.
-Require Import XV.GenStrip XV.StripDefs XV.StripModel XV.StripTreeModel.
+Require Import XV.GenStrip XV.StripDefs XV.StripModel XV.StripTreeModel XV.StripObsDefs XV.StripObsModel.
 Open Scope list_scope.
 Import ListNotations.
 
@@ -118,6 +118,29 @@ Theorem remove_stripped_idempotent : forall st x, remove_stripped st (remove_str
 Proof. exact rs_idempotent. Qed.
 Print Assumptions remove_stripped_idempotent.
 
+(* ---- keys, xsl:number level="single", sort keys ------------------------------------------------------ *)
+(* key('k', v) for xsl:key match=<node test> use="." : the same nodes (up to the removal) *)
+Theorem strip_equiv_key_dot : forall st m v n a ks,
+  map (strip_ctx st) (key_dot st m v (Elem n a ks)) = key_dot no_strip m v (remove_stripped st (Elem n a ks)).
+Proof. exact key_dot_equiv. Qed.
+Print Assumptions strip_equiv_key_dot.
+
+(* ... and for use="text()" (the key values are the string-values of the visible text children) *)
+Theorem strip_equiv_key_text : forall st m v n a ks,
+  map (strip_ctx st) (key_text st m v (Elem n a ks)) = key_text no_strip m v (remove_stripped st (Elem n a ks)).
+Proof. exact key_text_equiv. Qed.
+Print Assumptions strip_equiv_key_text.
+
+Theorem strip_equiv_number_single : forall st t c, ctx_visible st c = true ->
+  number_single no_strip t (strip_ctx st c) = number_single st t c.
+Proof. exact number_single_equiv. Qed.
+Print Assumptions strip_equiv_number_single.
+
+Theorem strip_equiv_sort_keys : forall st l, Forall (fun c => ctx_visible st c = true) l ->
+  sort_keys no_strip (map (strip_ctx st) l) = sort_keys st l.
+Proof. exact sort_keys_equiv. Qed.
+Print Assumptions strip_equiv_sort_keys.
+
 (* ---- xml:space: the code ignores it (known finding K-C13-1) ------------------------------------------ *)
 (* full statement with the Recommendation's removal (which honours xml:space="preserve"): refuted *)
 Theorem xml_space_rule_refuted :
@@ -196,3 +219,12 @@ Theorem number_any_strip_partial : forall l, walk_ok l -> (forall x, In x l -> w
   number_any (walk_strip l) = number_any l.
 Proof. exact number_any_strip_partial_lemma. Qed.
 Print Assumptions number_any_strip_partial.
+
+(* keys: with the declarations of ex_sheet the element a has the string-value "" (its whitespace is stripped), without
+   declarations it does not; the text-children key of the document element sees " " and "x" in both *)
+Example ex_keys :
+  length (key_dot (sheet_strip ex_sheet) TAnyElem [] ex_doc) = 1 /\ length (key_dot no_strip TAnyElem [] ex_doc) = 0
+  /\ length (key_text (sheet_strip ex_sheet) TAnyElem [9%N] ex_doc) = 0 /\ length (key_text no_strip TAnyElem [9%N] ex_doc) = 1
+  /\ map (number_single (sheet_strip ex_sheet) TNode) (eval_path (sheet_strip ex_sheet) [ {| s_axis := AxChild; s_test := TAnyElem; s_pred := PPos 1 |}; {| s_axis := AxChild; s_test := TComment; s_pred := PAll |} ] (root_ctx ex_doc)) = [Some 1]
+  /\ map (number_single no_strip TNode) (eval_path no_strip [ {| s_axis := AxChild; s_test := TAnyElem; s_pred := PPos 1 |}; {| s_axis := AxChild; s_test := TComment; s_pred := PAll |} ] (root_ctx ex_doc)) = [Some 2].
+Proof. repeat split; reflexivity. Qed.
